@@ -769,4 +769,82 @@ theorem splitBetweenWith_J (st : St) (v : Nat) (path : Option (Array Nat))
         exact splitTail_J (st.note gap) v ci _ hlb hH hae.2.1 side1 side2
 
 
+theorem slack_congr {st st' : St} (hv : st'.vars = st.vars) (hc : st'.cons = st.cons)
+    (hb : st'.blocks = st.blocks) (v : Nat) : st'.slack v = st.slack v := by
+  unfold St.slack St.uval
+  rw [hv, hc, hb]
+
+theorem splitBetweenWith_fuel_true (st : St) (v : Nat) (path : Option (Array Nat))
+    (h : st.fuelOut = true) : (st.splitBetweenWith v path).fuelOut = true := by
+  unfold St.splitBetweenWith
+  simp only
+  split
+  · simp only [St.incFlagNoSplit, St.flag]; exact h
+  · rw [afterSplit_fuel]
+    simp only [St.incSplitBetween]
+    exact splitOn_fuel_true _ _ _ h
+
+theorem process_J (st : St) (v : Nat)
+    (hH : InvC st.vars st.cons st.blocks.size (st.inactive.push v)) (hv : v < st.cons.size)
+    (hviol : (∀ j : Nat, j < st.cons.size → (st.cons[j]!).eq = false) →
+      ∃ s, st.slack v = some s ∧ s < 0) :
+    J (st.process v) := by
+  unfold St.process
+  simp only
+  split
+  · rename_i hne
+    right
+    exact mergeAcross_hole st v hH hv (by simpa [blk] using hne)
+  · rename_i hne
+    have hsame : blk st.vars (st.cons[v]!).l = blk st.vars (st.cons[v]!).r := by
+      simpa [blk] using hne
+    split
+    · -- a directed active path from right to left: flag
+      rename_i hdp
+      by_cases hfo : (st.okAnd (isActiveDirectedPathBetween st (st.vars[(st.cons[v]!).l]!).block
+          (st.vars.size + 1) (st.cons[v]!).r (st.cons[v]!).l).2).fuelOut = true
+      · left
+        simp only [St.incFlagPath, St.flag]
+        exact hfo
+      · right
+        unfold VpscInv.Inv
+        simp only [St.incFlagPath, St.flag, St.okAnd]
+        refine InvC.drop_push (InvC.set_unsat hH v hv ?_) (Or.inr ?_)
+        · intro hineq
+          obtain ⟨s, hs, hneg⟩ := hviol hineq
+          exact AdaptaVerif.Lemmas.VpscFlag.flag_path_sound st _ _ v
+            (fun u ci hci => (hH.outs_sound u ci hci).2) (tightActive_of_inv hH)
+            (getElem!_mem' _ v hv) hdp (viol_of_slack st v s hs hneg)
+        · rw [cons_set_get]; simp [hv]
+    · rename_i hdp
+      have hlr : (st.cons[v]!).l ≠ (st.cons[v]!).r := by
+        intro heq
+        apply hdp
+        rw [heq]
+        exact isActiveDirectedPathBetween_self st _ _ _
+      generalize hst1 : st.okAnd (isActiveDirectedPathBetween st (st.vars[(st.cons[v]!).l]!).block
+          (st.vars.size + 1) (st.cons[v]!).r (st.cons[v]!).l).2 = st1
+      have e1 : st1.vars = st.vars := by rw [← hst1]; simp only [St.okAnd]
+      have e2 : st1.cons = st.cons := by rw [← hst1]; simp only [St.okAnd]
+      have e3 : st1.blocks = st.blocks := by rw [← hst1]; simp only [St.okAnd]
+      have e4 : st1.inactive = st.inactive := by rw [← hst1]; simp only [St.okAnd]
+      have hH1 : InvC st1.vars st1.cons st1.blocks.size (st1.inactive.push v) := by
+        rw [e1, e2, e3, e4]; exact hH
+      unfold St.splitBetween
+      simp only
+      obtain ⟨f1, f2, f3, f4, f5⟩ := searchSplit_spec st1 v hH1
+      rcases f5 with f5 | ⟨_, f5⟩
+      · exact Or.inl (splitBetweenWith_fuel_true _ _ _ f5)
+      · apply splitBetweenWith_J
+        · rw [f1, f2, f3, f4]; exact hH1
+        · rw [f2, e2]; exact hv
+        · rw [f1, f2, e1, e2]; exact hsame
+        · rw [f2, e2]; exact hlr
+        · exact f5.congr f2
+        · intro hineq
+          rw [slack_congr (f1.trans e1) (f2.trans e2) (f3.trans e3)]
+          rw [f2, e2] at hineq
+          exact hviol hineq
+
+
 end AdaptaVerif.Lemmas.VpscLoop
